@@ -169,11 +169,13 @@ pub fn run_buf(buf: String, args: Vec<String>, cmd_mode: bool, skip_pcap: bool) 
     let mut vm = VM::new_with_global_store(bytecode, globals);
     init_builtin_vars(&vm, args);
     let err = vm.run();
+    let failed = err.is_err();
     if let Err(err) = err {
         eprintln!("{}", err);
     }
 
-    if cmd_mode && !filter_mode {
+    // The final value is printed only when the program ran to its end
+    if cmd_mode && !filter_mode && !failed {
         // Get the object at the top of the VM's stack
         let stack_elem = vm.last_popped();
         // print last popped element if it is not null
